@@ -76,6 +76,45 @@ theorem fileSize_eq (fs : Fs) (fd : Fd) : fileSize fs fd = (fd, some (fileData f
     simp_all
   · simp only [ne_eq, h, not_false_eq_true, if_true]
 
+theorem sysLseek_cur0 (fs : Fs) (fd : Fd) : sysLseek fs fd 0 .cur = (fd, .ok fd.pos) := by
+  unfold sysLseek
+  have h1 : ¬ ((fd.pos : Int) + 0 < 0) := by omega
+  simp only [h1, if_false]
+  cases fd; simp
+
+theorem sysLseek_end0 (fs : Fs) (fd : Fd) :
+    sysLseek fs fd 0 .end_ = ({ fd with pos := (fileData fs fd.path).length }, .ok (fileData fs fd.path).length) := by
+  unfold sysLseek
+  have h2 : ¬ (((fileData fs fd.path).length : Int) + 0 < 0) := by omega
+  simp only [h2, if_false]
+  simp
+
+theorem sysLseek_set (fs : Fs) (fd : Fd) (n : Nat) : sysLseek fs fd n .set = ({ fd with pos := n }, .ok n) := by
+  unfold sysLseek
+  have h2 : ¬ ((0 : Int) + (n : Int) < 0) := by omega
+  simp only [h2, if_false]
+  simp
+
+/-- File::size with a failing lseek, in closed form -/
+theorem fileSizeF_eq (fs : Fs) (fd : Fd) (k : Nat) :
+    fileSizeF fs fd k =
+      if k ≤ 1 then (fd, none)
+      else if k = 2 ∧ fd.pos ≠ (fileData fs fd.path).length then ({ fd with pos := (fileData fs fd.path).length }, none)
+      else (fd, some (fileData fs fd.path).length) := by
+  match k with
+  | 0 => simp [fileSizeF, lseekF]
+  | 1 => simp [fileSizeF, lseekF, sysLseek_cur0]
+  | 2 =>
+    simp only [fileSizeF, lseekF, sysLseek_cur0, sysLseek_end0]
+    by_cases h : fd.pos = (fileData fs fd.path).length
+    · simp [h]; cases fd; simp_all
+    · simp [h]
+  | k + 3 =>
+    simp only [fileSizeF, lseekF, sysLseek_cur0, sysLseek_end0, sysLseek_set]
+    by_cases h : fd.pos = (fileData fs fd.path).length
+    · simp [h]; cases fd; simp_all
+    · simp [h]
+
 theorem fileData_of_get (fs : Fs) (p : CPath) (c : Bytes) (h : fs.get p = some (.file c)) : fileData fs p = c := by
   simp [fileData, h]
 
@@ -130,6 +169,24 @@ theorem fileStep_refines (fs : Fs) (fd : Fd) (op : FileOp) (c : Bytes)
     by_cases hacc : fd.acc = .wronly
     · simp [hacc, hget, hdir]
     · simp [hacc, hget]
+  | seekF off w => simp [fileStep, specStep, hget, hdir]
+  | sizeF k =>
+    simp only [fileStep, fileSizeF_eq, specStep, specSizeF, hfd]
+    by_cases h1 : k ≤ 1
+    · simp [h1, hget, hdir]
+    · by_cases h2 : k = 2 ∧ fd.pos ≠ c.length
+      · simp [h2, hget, hdir]
+      · simp [h1, h2, hget, hdir]
+  | readAllF k =>
+    simp only [fileStep, fileReadAllF, fileSizeF_eq, specStep, specSizeF, hfd]
+    by_cases h1 : k ≤ 1
+    · simp [h1, hget, hdir]
+    · by_cases h2 : k = 2 ∧ fd.pos ≠ c.length
+      · simp [h2, hget, hdir]
+      · simp only [h1, h2, if_false, sysRead, hdir, hfd]
+        by_cases hacc : fd.acc = .wronly
+        · simp [hacc, hget, hdir]
+        · simp [hacc, take_drop_all, hget]
 
 /-- a whole script on one File object refines the byte-array specification -/
 theorem runOps_refines : ∀ (ops : List FileOp) (fs : Fs) (fd : Fd) (c : Bytes),
